@@ -23,7 +23,7 @@ func pureLeafs(c *Ctx, pkgs ...string) map[*ssa.Function]bool {
 			}
 		}
 		n := 0
-		for _, b := range fn.Blocks {
+		for _, b := range theCtx.GB(fn) {
 			for _, ins := range b.Instrs {
 				n++
 				switch ins.(type) {
@@ -297,7 +297,7 @@ func ruleStartChunkEffects(c *Ctx, r *Report, t *chunkTables, prefix string) {
 	if reopen != nil {
 		allowed := map[string]bool{"rd": true, "start": true, "size": true, "eos": true}
 		var extra []string
-		for _, b := range reopen.Blocks {
+		for _, b := range theCtx.GB(reopen) {
 			for _, ins := range b.Instrs {
 				if st, ok := ins.(*ssa.Store); ok {
 					if fa, ok := st.Addr.(*ssa.FieldAddr); ok {
@@ -323,7 +323,7 @@ func ruleStartChunkEffects(c *Ctx, r *Report, t *chunkTables, prefix string) {
 	fLr := c.Field("lzma", "uncompressedReader.lr")
 	if fill != nil && fURDict != nil && fLr != nil {
 		ok := false
-		for _, b := range fill.Blocks {
+		for _, b := range theCtx.GB(fill) {
 			for _, ins := range b.Instrs {
 				if stdCalleeName(ins) == "io.CopyN" {
 					a := ins.(*ssa.Call).Call.Args
@@ -346,7 +346,7 @@ func ruleStartChunkEffects(c *Ctx, r *Report, t *chunkTables, prefix string) {
 		}
 		// the LimitedReader's N is the size parameter
 		ok := false
-		for _, b := range f.Blocks {
+		for _, b := range theCtx.GB(f) {
 			for _, ins := range b.Instrs {
 				st, isSt := ins.(*ssa.Store)
 				if !isSt {
@@ -388,7 +388,7 @@ func ruleChunkLimits(c *Ctx, r *Report, prefix string) {
 	}
 	n := 0
 	for _, fn := range c.ModFuncs("lzma", "") {
-		for _, b := range fn.Blocks {
+		for _, b := range theCtx.GB(fn) {
 			for _, ins := range b.Instrs {
 				st, ok := storeToField(ins, fN)
 				if !ok {
@@ -415,7 +415,7 @@ func ruleChunkLimits(c *Ctx, r *Report, prefix string) {
 	written := c.Func("lzma", "Writer2.written")
 	if wr != nil && written != nil {
 		ok := false
-		for _, b := range wr.Blocks {
+		for _, b := range theCtx.GB(wr) {
 			for _, ins := range b.Instrs {
 				bo, isB := ins.(*ssa.BinOp)
 				if !isB || bo.Op != token.SUB {
@@ -828,7 +828,7 @@ func ruleWriter2(c *Ctx, r *Report, t *chunkTables, prefix string) {
 		chT := c.Type("lzma", "chunkHeader")
 		for _, fn := range []*ssa.Function{wUC, wCC} {
 			ok := false
-			for _, b := range fn.Blocks {
+			for _, b := range theCtx.GB(fn) {
 				for _, ins := range b.Instrs {
 					st, isSt := ins.(*ssa.Store)
 					if !isSt {
